@@ -20,6 +20,7 @@ RULE = (
     "carry the linear index and a native index that converts back to the same cell.  Non-trivial: "
     "datasets with holes or with native indexes that carry a grid kind."
     ' Also: one CF grid above 10^4 (thorough 10^5) cells, SHOC grids whose native index text exceeds 16 characters, datasets across the antimeridian; every sequence of face sizes in {3,4,5,6}^<=4 (thorough <=5) as a strip of convex faces; coordinates with more than six decimals (near-uniform axes); output named by absolute string, pathlib.Path, bare file name in the current directory, relative path.'
+    " Datasets also arrive with a history: warmed convention, copy, deep copy, pickle, netCDF round trip, fully chunked (dask), and hand-built conventions for coordinates autodetection would not pick (decoy pair), after warm / pickle. Second phase: the first case of every distinct outcome and kind (thorough: every case, for expensive checks every kind) again with debug logging enabled, under numpy.errstate(all='ignore'), and in python -O child interpreters."
 )
 LEVEL_TEXT = ("every dataset of the family list (holes, multi-kind native indexes, >10 cells) x 4 formats, read back "
               "with independent readers and compared cell by cell with the reference polygons and indexes")
@@ -38,12 +39,12 @@ CONVEX = {
 }
 
 
-def strip_mesh(sizes):
+def strip_mesh(sizes, scale=1.0):
     """Disjoint faces with the given vertex counts, left to right."""
     nodes, faces = [], []
     for k, size in enumerate(sizes):
         faces.append(list(range(len(nodes), len(nodes) + size)))
-        nodes.extend((float(x + 4 * k), float(y)) for x, y in CONVEX[size])
+        nodes.extend((float(x + 4 * k) * scale, float(y) * scale - scale / 7) for x, y in CONVEX[size])
     return nodes, faces
 
 
@@ -78,6 +79,14 @@ def cases(tier):
             spec = {'family': 'ugrid', 'mesh': 'strip-' + ''.join(map(str, sizes)), 'nodes': nodes, 'faces': faces, 'nt': 1, 'nk': 1}
             for fmt in (FORMATS if length <= 3 else ('geojson',)):
                 out.append({'spec': spec, 'format': fmt})
+    # coordinates that are not short decimal or binary fractions, well below one degree (text formats must not round them)
+    for scale in (1 / 300, 1e-7 / 3, 1 / 3):
+        for length in (1, 2):
+            for sizes in itertools.product((3, 4, 5, 6), repeat=length):
+                nodes, faces = strip_mesh(sizes, scale)
+                spec = {'family': 'ugrid', 'mesh': f'strip-{scale:.3g}-' + ''.join(map(str, sizes)), 'nodes': nodes, 'faces': faces, 'nt': 1, 'nk': 1}
+                for fmt in FORMATS:
+                    out.append({'spec': spec, 'format': fmt, 'fine': True})
     # the way the output file is named
     for spec in ({'family': 'cf1d', 'ny': 2, 'nx': 3}, {'family': 'ugrid', 'mesh': 'M4'}):
         for fmt in FORMATS:
@@ -141,6 +150,8 @@ def run_case(case):
     sizes = {len(p.exterior.coords) for _, p in cells}
     if len(sizes) > 1:
         rec.nontrivial('mixed-sizes')
+    if case.get('fine'):
+        rec.nontrivial('fine-coordinates')
 
     def target(tmp, name):
         """(what is passed to the writer, where the file must appear)"""
